@@ -16,6 +16,7 @@ pub mod c13;
 pub mod c14;
 pub mod c15;
 pub mod c16;
+pub mod c17;
 pub mod c18;
 pub mod c19;
 
@@ -41,6 +42,7 @@ pub fn all() -> Vec<Prop> {
         Prop { id: "C14", level: "exploration", run: c14::run },
         Prop { id: "C15", level: "exploration", run: c15::run },
         Prop { id: "C16", level: "exploration", run: c16::run },
+        Prop { id: "C17", level: "exploration", run: c17::run },
         Prop { id: "C18", level: "exploration", run: c18::run },
         Prop { id: "C19", level: "exploration", run: c19::run },
     ]
